@@ -7,10 +7,13 @@ if ! git diff --quiet; then echo "/repo has uncommitted changes"; exit 3; fi
 git apply "$patch" || { echo "patch does not apply"; exit 3; }
 cd /verif
 export VERIF_EVIDENCE_DIR=/dev/shm/seedtest-evidence
+# SEED_TRIAGE=1: yes/no mode of the runner (stop at the first violation, no shrinking, no replay file): the regression over
+# all stored changes (tools/seedall.sh) uses it
+[ "${SEED_TRIAGE:-0}" = "1" ] && export VERIF_TRIAGE=1
 for c in "$@"; do
   out=$(timeout 900 ./check "$c" --tier "${TIER:-quick}" 2>&1); rc=$?
   echo "== $c rc=$rc"
-  echo "$out" | grep -E "oracle|VIOLATION|HARNESS" | cut -c1-400 | head -6
+  echo "$out" | grep -E "oracle|VIOLATION|HARNESS" | sed 's/oracle=/oracle /' | cut -c1-400 | head -6
 done
 git -C /repo checkout -- .
 rm -rf /dev/shm/seedtest-evidence 
